@@ -77,13 +77,23 @@ def get_mask_with_key_joins(data, key_joins, subset_state, view=None):
                 else:
                     key_left = key_left.astype(dtype, copy=False)
                     key_right = key_right.astype(dtype, copy=False)
+                    if dtype.kind == 'f':
+                        # Make sure that -0. and 0. have the same bytes
+                        key_left = key_left + 0.
+                        key_right = key_right + 0.
                 key_left_all.append(key_left)
                 key_right_all.append(key_right)
+
+            # As for single-column keys, NaN is not equal to anything
+            valid_left = np.ones(len(key_left_all[0]), dtype=bool)
+            for key_left in key_left_all:
+                if key_left.dtype.kind == 'f':
+                    valid_left &= ~np.isnan(key_left)
 
             key_left_all = concatenate_arrays(*key_left_all)
             key_right_all = concatenate_arrays(*key_right_all)
 
-            mask = np.isin(key_left_all, key_right_all)
+            mask = np.isin(key_left_all, key_right_all) & valid_left
 
             return mask.reshape(data.get_data(cid1_i, view=view).shape)
 
